@@ -53,8 +53,10 @@ def main():
             continue
         ds0 = inv.decay_data
         rec["init"] = obs(inv, None, cls, ds0)
-        for op in h["ops"]:
+        held = []      # (step, operand object, its observation right after the operator returned): operands must not change later
+        for stepno, op in enumerate(h["ops"]):
             exc = None
+            left = inv
             try:
                 if op[0] in ("add", "subtract"):
                     getattr(inv, op[0])({key(k): amount(a, hp) for k, a in op[1]}, op[2])
@@ -64,10 +66,14 @@ def main():
                     inv = inv + other if op[0] == "plus" else inv - other
                     if obs(other, None, cls, ds0) != before:
                         exc = "OPERAND-MUTATED"
+                    held.append((stepno + 1, other, obs(other, None, cls, ds0)))
+                    held.append((stepno + 1, left, obs(left, None, cls, ds0)))
                 elif op[0] == "mul":
                     inv = inv * amount(op[1], hp)
+                    held.append((stepno + 1, left, obs(left, None, cls, ds0)))
                 elif op[0] == "div":
                     inv = inv / amount(op[1], hp)
+                    held.append((stepno + 1, left, obs(left, None, cls, ds0)))
                 elif op[0] == "remove":
                     inv.remove(key(op[1]))
                 elif op[0] == "remove_list":
@@ -75,6 +81,8 @@ def main():
             except Exception as e:
                 exc = type(e).__name__
             rec["steps"].append(obs(inv, exc, cls, ds0))
+        # an operator returns a NEW inventory: whatever is done to the result later must leave the operands as they were
+        rec["alias"] = sorted({st for st, o, snap in held if obs(o, None, cls, ds0) != snap})
         out.append(rec)
     json.dump(out, sys.stdout)
 main()
